@@ -11,7 +11,7 @@
 
     Three defects found by refutation of these statements have been REPAIRED in the Go code, and the model follows the
     repaired code; the witnesses are kept as statements about the OLD behaviour ([*_old]):
-    - K7 (repaired in Go commit K7FIX): a pod WITHOUT requested ranges whose key holds several IPs: Filter and Bind each
+    - K7 (repaired in Go commit d08b5a9): a pod WITHOUT requested ranges whose key holds several IPs: Filter and Bind each
       took "the first" IP of the key in Go map order, possibly different ones, so Bind could write an IP that is not
       routable from the approved node.  Now ByKeyAndIPRanges(key, nil) lists the key's IPs in ascending order: "the
       first" is the SMALLEST IP of the key ([first_of_key]) for Filter and Bind alike.  The old behaviour
